@@ -430,3 +430,32 @@ func (p *Prog) resolveRole(role string) (*ssa.Function, error) {
 	}
 	return nil, fmt.Errorf("unknown role %q", role)
 }
+
+// HashcodeFn is the vertex hashing function of package graph, located by role:
+// the only in-package function the exported VertexID calls.
+func (p *Prog) HashcodeFn() *ssa.Function {
+	vid := p.Func(p.Graph, "VertexID")
+	if vid == nil {
+		return nil
+	}
+	var out *ssa.Function
+	for _, ci := range Calls(vid) {
+		if cal := ci.Common().StaticCallee(); cal != nil && p.InTarget(cal) {
+			out = cal
+		}
+	}
+	return out
+}
+
+// IsHashcodeCall reports whether v is a call of the vertex hashing function (or of the exported VertexID).
+func (p *Prog) IsHashcodeCall(v ssa.Value) (*ssa.Call, bool) {
+	cl, ok := v.(*ssa.Call)
+	if !ok {
+		return nil, false
+	}
+	cal := cl.Common().StaticCallee()
+	if cal != nil && (cal == p.HashcodeFn() || CalleeName(cl.Common()) == GVertexID) {
+		return cl, true
+	}
+	return nil, false
+}
